@@ -15,7 +15,9 @@ CHECKS = {
         text="Every bool expression with <= 4 operator nodes over {a,b,c,true,false} (all 13.3 M trees) and every float "
              "expression with <= 3 (thorough: 4) operator nodes on an exact-arithmetic grid is generated on the package's own "
              "example generators and on replicas with permuted commutative flags, optimizer on and off, evaluated on every "
-             "assignment and compared with direct evaluation by the operators' Go definitions. Exhaustive within the bound, "
+             "assignment and compared with direct evaluation by the operators' Go definitions; let/if forms incl. lets nested inside the "
+             "value of a let, evaluated also through Func.Eval on rows of one table, with the variable names handed to Generate as a "
+             "slice with spare capacity (results, table and names must be untouched). Exhaustive within the bound, "
              "which is the whole quantifier of the property for bools.",
         note="Trusted: the tree renderer (its grouping rules are those stated in the property; cross-checked by C03's reference "
              "parser) and Go's float arithmetic. Float cases whose arithmetic is not exact (checked with big.Rat) are excluded.",
@@ -59,7 +61,8 @@ CHECKS.update({
              "whose free identifiers are attributes of the argument map (locals and constants shadow them; uses at every closure nesting level) is "
              "generated with GenerateWithMap(exp) and, after the checks' own free-variable substitution x -> this.x on the AST, with Generate(exp'); both "
              "are evaluated on the same map in five storage representations, optimizer on and off; Generate-time success and outcomes must agree. A second "
-             "attribute set holds closures (f:(int,int)->int, g:int->int): implicit calls f(..) against the method-call form this.f(..), with let/func inside the arguments.",
+             "attribute set holds closures (f:(int,int)->int, g:int->int): implicit calls f(..) against the method-call form this.f(..), with let/func inside the arguments; "
+             "a third one stores closures under names of map methods (put, get); constants added to a generator AFTER its first GenerateWithMap must shadow attributes too.",
         note="Trusted: the free-variable substitution of internal/vlang. The explicit form's own correctness is C01's claim.",
         technique="bounded-exhaustive differential enumeration (implicit vs explicit attribute access)",
         design_ref="DESIGN.md §5 C16",
@@ -75,7 +78,8 @@ CHECKS.update({
              "called on freshly built argument values, are checked against a reference relation written from the property text and against every law of the "
              "property as relations between table entries; all triples of the numeric and string sub-pools for transitivity; min, max, list.min/max, "
              "order, orderRev and switch on all pairs and on all triples of the hand-picked values must agree with the operator tables. Every operator is also "
-             "evaluated twice on the SAME operand objects (same outcome; each operand still equals a fresh copy of itself).",
+             "evaluated twice on the SAME operand objects (same outcome; each operand still equals a fresh copy of itself) and on ONE object standing on both sides, bare "
+             "and nested in a list/map (outcome as for two separately built equal values); the map pool includes replace maps that hide a replacement key outside their key set.",
         note="Trusted: the ~260-line reference relation (numbers via math/big). Categories the property text leaves open (closure = closure, < on bools, "
              "string~string, string~map, list~list, map = map where key order decides error-vs-false, NaN in min/max/order) are excluded and counted "
              "under unspecified_excluded. An error that is a recovered Go panic satisfies 'fails with an error' (C05 owns catchability).",
@@ -111,7 +115,7 @@ CHECKS.update({
         level="exploration", engine="bex",
         text="Every pipeline numbers(n).map(counting closure) -> <=2 (thorough: <=3) lazy stages out of 18 variants (map, accept, skip, top, combine*, iir*, number, "
              "compact, +, cross, fsm) -> 9 short-circuit consumers (first, single, top(k).size/.string, present, indexWhere, v~list, [v]~list, multiUse of two of them), decisive "
-             "position 0..6 or absent, source lengths {0,1,2,5,k+5,24,10^11}, with one failing call at every position 0..needed+3 of the source, of each stage "
+             "position 0..6 or absent, source lengths {0,1,2,5,k+5,24,10^11} (the finite ones also materialised with eval() before the stages), with one failing call at every position 0..needed+3 of the source, of each stage "
              "closure and of the consumer predicate, or nowhere (1.7 M / 38 M cases), is executed on the real code with counting host functions that abort after "
              "1000 calls. Call counts must lie between the needed prefix and needed + one read-ahead per stage of a declarative demand model whose transfer "
              "functions are validated against brute-force prefix stability; the result must be what the needed prefix determines (a failure inside it surfaces, "
@@ -151,7 +155,7 @@ CHECKS.update({
              "every list of <= 3 (thorough <= 4) records whose x lies on every bin edge, edge +- size/2, edge +- 1 ulp, far outside, 0, -0, +-2^62..2^70, +-1e30, "
              "+-MaxFloat64 (weights 1, 0.5, -2), in one and two dimensions (all 45x45 axis pairs for single records), evaluated through value.New().Generate on the "
              "real binning/binning2d/collectBinning and compared with a reference histogram, the exact weight sum and the exact interval description of every bin. "
-             "Additivity is checked for every list against every splitting into 1 part, 2 parts (all subsets) and 3 contiguous parts, empty parts included, "
+             "Single records are also binned on 4608 (thorough: 18432) grids with sizes n, n/2, n/8 for every n <= 128 (512). Additivity is checked for every list against every splitting into 1 part, 2 parts (all subsets) and 3 contiguous parts, empty parts included, "
              "collecting twice from the same part binnings (collecting must not change its parts). "
              "Exhaustive within these bounds (4.3 M cases quick, about 115 M thorough).",
         note="Trusted: the reference bin index (comparisons of x with edges start+k*size computed with big.Rat and asserted exactly representable), Go float64 "
@@ -188,13 +192,13 @@ CHECKS.update({
 CHECKS.update({
     "C04": dict(
         level="exploration", engine="bex",
-        text="Every string of <= 4 (thorough <= 5) symbols over a 28-symbol byte-level alphabet (one representative of each scanner class plus every trouble-maker: "
+        text="Every string of <= 4 (thorough <= 5) symbols over a 29-symbol byte-level alphabet (one representative of each scanner class plus every trouble-maker: "
              "quotes, backslash, comment openers, NUL, invalid UTF-8, alias and superscript runes) and every sequence of <= 4 (<= 5) tokens over the 32-token "
              "value-language alphabet is passed to the real Parser.Parse (generic table) and value.New().Generate with comments and comfort on and off, on the plain "
-             "build with real goroutines; the same for n-fold repetitions of 24 openers up to 64 KiB and for every valid <= 3-token program padded to 64 KiB with "
+             "build with real goroutines; the same for n-fold repetitions of 28 openers (incl. nested closures that use names they do not declare) up to 64 KiB and for every valid <= 3-token program padded to 64 KiB with "
              "blanks and comments; also every string of <= 4 (<= 5) symbols over a 22-symbol alphabet with one rune of every Unicode class the scanner's predicates "
              "tell apart (No, Nl, Nd of other scripts, letters, symbols, Zs/Zl, Mn, Cf), and 2478 constant expressions whose folding may fail (17 binary operators x "
-             "12 x 12 constant operands, 30 unary/index/method forms) at each of 42 syntactic positions. A case fails if it panics (recover), kills the process (journaled re-run), does not return (CPU/wall watchdog) or, for the 64 KiB "
+             "12 x 12 constant operands, 30 unary/index/method forms) at each of 42 syntactic positions, and 8 programs whose constant part recurses without end. A case fails if it panics (recover), kills the process (journaled re-run), does not return (CPU/wall watchdog) or, for the 64 KiB "
              "families, grows more than 8x in CPU time when the input doubles. Exhaustive within those bounds (14 M calls quick); edge configurations (last binary "
              "operator also prefix, empty table, nothing optional, 28 priority levels) run on smaller bounds. Deadlock freedom of the tokenizer/parser pair under "
              "every schedule is decided exactly by C12's parser space under the controlled scheduler.",
@@ -326,7 +330,7 @@ CHECKS.update({
              "operators {- ! ~} (also binary at every position including the last) and a text alias on/off, plus dead-end, prefix-of-binary and 16-operator tables, "
              "is combined with every operator tree of <= 3 (thorough: 4) nodes in every parenthesisation (minimal, every subset of redundant pairs, full), with postfix "
              "and keyword forms around and inside the trees. The real Parse's AST must equal the tree of a reference precedence-climbing parser written from the "
-             "property statement, which itself must reproduce every generated tree from every rendering. Every single-token deletion or insertion of every valid token "
+             "property statement, which itself must reproduce every generated tree from every rendering. Every single-token deletion, insertion or substitution of every valid token "
              "string of <= 6 (thorough: 7) tokens on 7 tables must be rejected unless the reference accepts it; panics are violations. Exhaustive within these bounds "
              "(35 M evaluations quick).",
         note="Bounds are far below the quantifier's 16 operators and depth, except for three 16-operator orders at <= 2/3 nodes. Leaves are labelled a b 1 by position. "
